@@ -11,7 +11,7 @@ RULE = ("seeded runs of the real uploader/downloader on a simulated grid: k<=N<=
         "sizes concentrated on 0/55/56, segment and k boundaries; delivery order of every server answer drawn per message (uniform/heavy-tailed/FIFO latency), "
         "write-batch size, read chunk size, share-layout version, overdue timer and finder parallelism randomised per run; reads through a fresh client; "
         "non-trivial = an upload completed and a read/oracle ran; distinct = (probe counts, k, n, size) fingerprint")
-RULE += '; one run in four each: immutable round trip, mutable create/write histories with several files per client, uploads on grids with full/read-only/slow servers and pre-existing shares, check/repair with add-lease -- the secrets of every allocate_buckets / add_lease / slot_testv_and_readv_and_writev on the wire are compared with a hashlib-only derivation'
+RULE += '; one run in five: directory histories (dirsim) in which the stored contents of every directory are parsed and each child write cap must decrypt under H(tag, salt, that directory\'s writekey), including directories created from another directory\'s listing; of the rest, one run in four each: immutable round trip, mutable create/write histories with several files per client, uploads on grids with full/read-only/slow servers and pre-existing shares, check/repair with add-lease -- the secrets of every allocate_buckets / add_lease / slot_testv_and_readv_and_writev on the wire are compared with a hashlib-only derivation'
 TECHNIQUE = "deterministic simulation: seeded schedules over a simulated network/reactor, byte-exact and independent-decoder oracles"
 LEVEL_TEXT = "seeded search over inputs, configurations and delivery schedules; sampling, not enumeration"
 LEVEL_NOTE = ("real: allmydata.client._Client, Uploader/Encoder/Tahoe2ServerSelector, downloader, StorageFarmBroker/NativeStorageServer, StorageServer; "
@@ -24,6 +24,9 @@ ASSUMPTIONS = ["per-connection FIFO delivery (TCP)", "PYTHONHASHSEED=0 is part o
 
 def generate(seed, tier):
     # the derivations are observed on the wire of immutable uploads and of mutable creates/writes alike
+    if seed % 5 == 4:
+        from engines import dirsim
+        return dirsim.gen_dir(seed, tier, "C17")          # directory child-cap keys (stored directory contents)
     if seed % 4 == 1:
         return mutsim.gen_single(seed, tier, "C17")
     if seed % 4 == 2:
@@ -34,6 +37,9 @@ def generate(seed, tier):
 
 
 def execute(case):
+    if case.get("engine") == "dirsim":
+        from engines import dirsim
+        return dirsim.exec_dir(case)
     if case.get("engine") == "mutsim":
         return mutsim.exec_single(case)
     if case.get("profile") == "upfault":
